@@ -5,6 +5,7 @@ import (
 	"math/big"
 	"os"
 	"path/filepath"
+	"sort"
 	"time"
 
 	"github.com/LemoFoundationLtd/lemochain-core/chain/account"
@@ -12,6 +13,7 @@ import (
 	"github.com/LemoFoundationLtd/lemochain-core/chain/types"
 	"github.com/LemoFoundationLtd/lemochain-core/chain/vm"
 	"github.com/LemoFoundationLtd/lemochain-core/common"
+	"github.com/LemoFoundationLtd/lemochain-core/common/crypto"
 	"github.com/LemoFoundationLtd/lemochain-core/store"
 	"github.com/LemoFoundationLtd/lemochain-core/store/protocol"
 )
@@ -197,7 +199,20 @@ type frameTracer struct {
 	fresh    map[int]bool // a call was issued towards this depth and no op of the callee has been seen yet
 	maxDepth int
 	nops     int
-	full     bool // record the event list (tree programs); otherwise only depth / op count
+	full     bool // record the event list (tree programs); otherwise only depth / op count / touched accounts
+	touched  map[common.Address]map[common.Hash]bool
+}
+
+func (t *frameTracer) touch(a common.Address, keys ...common.Hash) {
+	if t.touched == nil {
+		t.touched = map[common.Address]map[common.Hash]bool{}
+	}
+	if t.touched[a] == nil {
+		t.touched[a] = map[common.Hash]bool{}
+	}
+	for _, k := range keys {
+		t.touched[a][k] = true
+	}
 }
 
 func newTracer(full bool) *frameTracer { return &frameTracer{pend: map[int]bool{}, fresh: map[int]bool{}, full: full} }
@@ -236,6 +251,24 @@ func (t *frameTracer) CaptureState(env *vm.EVM, pc uint64, op vm.OpCode, gas, co
 			t.maxDepth = depth
 		}
 		t.nops++
+		if err == nil {
+			self := contract.GetAddress()
+			switch {
+			case op == vm.SSTORE:
+				t.touch(self, common.BigToHash(stack.Back(0)))
+			case op == vm.CALL || op == vm.CALLCODE || op == vm.DELEGATECALL || op == vm.STATICCALL:
+				t.touch(self)
+				t.touch(common.BigToAddress(stack.Back(1)))
+			case op == vm.SELFDESTRUCT:
+				t.touch(self)
+				t.touch(common.BigToAddress(stack.Back(0)))
+			case op == vm.CREATE:
+				t.touch(self)
+				t.touch(crypto.CreateContractAddress(self, txHash))
+			case op >= vm.LOG0 && op <= vm.LOG4:
+				t.touch(self)
+			}
+		}
 		return nil
 	}
 	ctx := nameOfAddr(contract.GetAddress())
@@ -361,4 +394,124 @@ func (w *world) call(base common.Hash, to common.Address, input []byte, gas uint
 		res.Fin = map[string]interface{}{}
 	}
 	return res
+}
+
+// ---- arbitrary programs: accounts are observed by address, over everything the run touched
+
+type touchSet map[common.Address]map[common.Hash]bool
+
+func (ts touchSet) add(a common.Address, keys ...common.Hash) {
+	if ts[a] == nil {
+		ts[a] = map[common.Hash]bool{}
+	}
+	for _, k := range keys {
+		ts[a][k] = true
+	}
+}
+
+// projectRaw reads balance, code size, suicide flag and the touched storage slots of the touched accounts.
+func projectRaw(am *account.Manager, ts touchSet) map[string]interface{} {
+	var addrs []string
+	byHex := map[string]common.Address{}
+	for a := range ts {
+		addrs = append(addrs, a.Hex())
+		byHex[a.Hex()] = a
+	}
+	sort.Strings(addrs)
+	acc := []interface{}{}
+	for _, h := range addrs {
+		a := byHex[h]
+		ac := am.GetAccount(a)
+		var keys []string
+		for k := range ts[a] {
+			keys = append(keys, k.Hex())
+		}
+		sort.Strings(keys)
+		st := []interface{}{}
+		for _, k := range keys {
+			v, err := ac.GetStorageState(common.HexToHash(k))
+			if err != nil {
+				st = append(st, []string{k, "ERR"})
+			} else {
+				st = append(st, []string{k, fmt.Sprintf("%x", v)})
+			}
+		}
+		code, cerr := ac.GetCode()
+		cl := fmt.Sprint(len(code))
+		if cerr != nil {
+			cl = "ERR"
+		}
+		acc = append(acc, map[string]interface{}{"a": h, "bal": ac.GetBalance().String(), "code": cl, "dead": ac.GetSuicide(), "st": st})
+	}
+	o := project(am, nil)
+	o["acc"] = acc
+	return o
+}
+
+// callRaw runs one transaction-level call (or create, when to == nil) of arbitrary code on a fresh manager.
+func (w *world) callRaw(base common.Hash, to *common.Address, input []byte, gas uint64, value int, ts touchSet) (*runResult, touchSet) {
+	am := account.NewManager(base, w.db)
+	tr := newTracer(false)
+	evm := newEVM(am, tr)
+	res := &runResult{Gas: gas}
+	func() {
+		defer func() {
+			if r := recover(); r != nil {
+				res.Crash = fmt.Sprint(r)
+				if len(res.Crash) > 300 {
+					res.Crash = res.Crash[:300]
+				}
+			}
+		}()
+		var ret []byte
+		var left uint64
+		var err error
+		if to == nil {
+			ret, _, left, err = evm.Create(am.GetAccount(addrOf["U"]), input, gas, big.NewInt(int64(value)))
+		} else {
+			ret, left, err = evm.Call(am.GetAccount(addrOf["U"]), *to, input, gas, big.NewInt(int64(value)))
+		}
+		res.Left, res.RetLen = left, len(ret)
+		switch {
+		case err == nil:
+			res.Status = "ok"
+		case err.Error() == "evm: execution reverted":
+			res.Status = "revert"
+		default:
+			res.Status = "fail:" + err.Error()
+		}
+	}()
+	res.MaxD, res.Nops = tr.maxDepth-1, tr.nops
+	if res.MaxD < 0 {
+		res.MaxD = 0
+	}
+	if ts == nil {
+		ts = touchSet{}
+		for a, ks := range tr.touched {
+			for k := range ks {
+				ts.add(a, k)
+			}
+			ts.add(a)
+		}
+		for _, n := range allNames {
+			ts.add(addrOf[n], slotKey("s1"), slotKey("s2"))
+		}
+		ts.add(common.HexToAddress("0x09"), common.HexToAddress("0x09").Hash())
+		if to == nil {
+			ts.add(crypto.CreateContractAddress(addrOf["U"], txHash))
+		} else {
+			ts.add(*to)
+		}
+	}
+	if res.Crash == "" {
+		res.Fin = projectRaw(am, ts)
+	} else {
+		res.Fin = map[string]interface{}{}
+	}
+	return res, ts
+}
+
+// pre is the projection of the untouched base state over the same accounts.
+func (w *world) pre(base common.Hash, ts touchSet) map[string]interface{} {
+	return projectRaw(account.NewManager(base, w.db), ts)
 }
